@@ -264,6 +264,11 @@ class Gen:
         if k == "oct":
             t["con"] = r.choice(SIZE_CONS)
         t["tag"] = self.maybe_tag(default)
+        c = t.get("con")
+        if k == "int" and c and c[1] is not None and 2**31 <= c[1] < 2**32 and t["tag"] and \
+           (t["tag"][2] == "EXPLICIT" or (t["tag"][2] is None and default == "EXPLICIT")):
+            # known finding C02-explicit-tag-unsigned-member (double tag); exercised by the special module only
+            t["tag"] = None
         return t
 
     def ty(self, depth, default, refs):
@@ -280,6 +285,20 @@ class Gen:
         else:
             t["con"] = r.choice(SIZE_CONS[:9])
             t["el"] = self.ty(depth + 1, default, refs)
+            for _ in range(20):
+                if t["el"]["k"] not in ("seqof", "setof"):
+                    break
+                # an anonymous OF directly inside an OF trips several asn1c defects (parser assertion with an
+                # inner SIZE, misplaced element constraint, uncompilable nested Member structs): C10/C12 findings,
+                # exercised there; here collections nest through a named type or a SEQUENCE/CHOICE
+                t["el"] = self.ty(depth + 1, default, refs)
+            else:
+                t["el"] = self.leaf(default)
+            ec = t["el"].get("con")
+            if t["el"]["k"] == "int" and ec and ec[0] is not None and ec[0] >= 0 and (ec[1] is None or ec[1] >= 2**31):
+                # an anonymous OF element that needs its own INTEGER specifics (unsigned) makes asn1c emit a
+                # reference to an undeclared asn_DEF_Member_N inside nested structures: C10 finding, exercised there
+                t["el"]["con"] = (0, 255, False)
         return t
 
     def module(self, name, ntypes):
